@@ -276,6 +276,7 @@ impl<const K: usize> AffTree<K> {
                 let mut created_children = 0;
                 let mut skipped_children = 0;
                 let mut label_created = None;
+                let mut skipped_edges: Vec<(Label, TreeIndex)> = Vec::new();
 
                 for edg in lhs.tree.children(parent0_idx) {
                     let child0_idx = edg.target_idx;
@@ -307,11 +308,29 @@ impl<const K: usize> AffTree<K> {
                         label_created = Some(label);
                     } else {
                         skipped_children += 1;
+                        skipped_edges.push((label, child0_idx));
                         rhs.tree.remove_child(parent1_idx, label);
                     }
                 }
 
-                // In the case of no children remove_child already cleans up the tree
+                // A decision must keep at least one child, otherwise it turns into a terminal holding a
+                // predicate. When every branch was pruned, pruning is undone for this node.
+                if created_children == 0 && skipped_children > 0 {
+                    for (label, child0_idx) in skipped_edges {
+                        let child0 = lhs.tree.node_value(child0_idx).unwrap();
+                        let child1_aff = match lhs.tree.is_leaf(child0_idx).unwrap() {
+                            true => C::update_terminal(&child0.aff, &terminal_aff),
+                            false => C::update_decision(&child0.aff, &terminal_aff),
+                        };
+                        let child1_idx = rhs
+                            .tree
+                            .add_child_node(parent1_idx, label, AffContent::new(child1_aff))
+                            .unwrap();
+                        stack.push((child0_idx, child1_idx));
+                        n_nodes += 1;
+                    }
+                }
+
                 if created_children == 1 && created_children + skipped_children == K {
                     debug!("Forwarding node");
                     // Move affine function to parent node and clean up tree
